@@ -44,6 +44,7 @@ Require(cond, msg) == IF cond THEN TRUE ELSE Fail(msg)
 \* pressed INSIDE a word.
 HelpersOff == cfg.method = "fixed" /\ ~cfg.o.vowel /\ ~cfg.o.chandra /\ ~cfg.o.kar /\ ~cfg.o.reph /\ ~cfg.o.karorder
 On(f) == \/ Focus = f \/ Focus = "ALL"
+         \/ (Focus = "C13" /\ f = "C12")      \* (the reph key is one of the keys; C13's option-off clause is plain appending)
          \/ (Focus = "C11" /\ upd /\ f \in {"C04", "C12"})
          \/ (Focus = "C04" /\ f = "C12" /\ HelpersOff)
 
@@ -103,6 +104,13 @@ Shadow(comparable, c2) ==
         /\ Require(Fresh # "diff", "C05/C06/C09/C11: the suggestion differs from the one a brand-new context gives for the surviving text")
         /\ Require((Fresh = "na" /\ E.kind \in {"single", "full"}) => ~comparable, "the recorder skipped a comparison that was possible")
 
+\* fixed method, list-style suggestion: the first candidate IS the composed text (modulo the curling of wrapping quotes; the
+\* recorder logs it with curly quotes mapped back) - what a front-end commits when the user just goes on typing (C15, and the
+\* visible side of C12 / C13 when suggestions are on)
+FirstIsComposed ==
+    ((On("C12") \/ On("C15") \/ On("C02")) /\ ~Phon /\ E.kind = "full" /\ "c0u" \in DOMAIN E) =>
+        Require(E.c0u = E.text, "C12/C13/C15: the first candidate of the fixed-layout list is not the composed text")
+
 SetLast == /\ lastLen' = (IF E.kind = "full" THEN E.len ELSE IF E.kind = "single" THEN 1 ELSE 0)
            /\ shown' = (E.kind \in {"single", "full"} /\ lastLen' > 0)
            /\ ongoing' = E.ongoing
@@ -137,6 +145,7 @@ Key ==
                  /\ (On("C12") => Require((~cfg.o.karorder /\ NormativeKey(comp, val)) => E.shown \in PropKeySet(comp, val, cfg.o),
                                           "C04/C12/C13: the composed text is not one the layout value and the composition rules allow for this key"))
                  /\ (OnKind => Require(cfg.sug => (E.kind = "full" /\ E.rsel < E.len), "C02: fixed list expected, preselected index inside it"))
+                 /\ FirstIsComposed
                  /\ (OnKind => Require(~cfg.sug => E.kind # "full", "C02/C11: suggestions are off but a list-style suggestion was returned"))
                  /\ (On("C06") => Require(IF cfg.o.karorder THEN (E.shown # <<>> => E.ongoing) ELSE E.ongoing = (E.shown # <<>>),
                                           "C06: session flag does not match the composed text"))
@@ -155,6 +164,7 @@ Backspace ==
                 /\ Require(E.kind = "empty" => ~E.ongoing, "C06: a backspace returned an empty suggestion but the session is still ongoing")
                 /\ Require((E.ctrl /\ ongoing) => (E.kind = "empty" /\ ~E.ongoing), "C06: ctrl-backspace must end the session"))
           /\ (On("C12") => Require((exact /\ ~Phon /\ E.kind # "empty") => E.shown = expected, "C12: backspace must remove exactly the last code point"))
+          /\ FirstIsComposed
           /\ Shadow(Phon, expected)
           \* a backspace that returns an empty suggestion, and ctrl-backspace on an ongoing session, are terminating events
           /\ ended' = (ended \/ (E.kind = "empty" /\ ongoing))
